@@ -279,6 +279,8 @@ type ReplayFile struct {
 	Note      string    `json:"note"`
 }
 
+var raceMode = os.Getenv("VRACE") != ""
+
 // workerMain runs one worker: generates cases from its seed range until the time budget is used.
 func workerMain() int {
 	prop := os.Getenv("VCHECK")
@@ -309,6 +311,11 @@ func workerMain() int {
 		if os.Getenv("VDEBUG") != "" {
 			b, _ := json.Marshal(c)
 			fmt.Fprintf(os.Stderr, "case %d: %s\n", k, b)
+		}
+		if raceMode {
+			// marker for the race-report parser: reports that follow belong to this case
+			b, _ := json.Marshal(c)
+			fmt.Fprintf(os.Stderr, "\nRACECASE %s\n", b)
 		}
 		st.Evaluations++
 		st.Entities[c.Entity]++
@@ -475,6 +482,9 @@ func replayMain() int {
 	if ck == nil {
 		fmt.Fprintf(os.Stderr, "unknown check %q\n", rf.Case.Prop)
 		return 2
+	}
+	if freeRunning {
+		return raceReplayMain(&rf)
 	}
 	st := newStats()
 	vs := ck.Run(rf.Case, st)
